@@ -48,6 +48,8 @@ class C17(Check):
                 scn["event"] = {"k": "error", "name": rng.choice(names), "def": rng.choice(keys), "seed": rng.randrange(1 << 30), "clone": rng.random() < 0.3}
             else:
                 scn["event"] = {"k": "print", "at": [[rng.choice(keys), rng.randrange(1 << 30)] for _ in range(rng.randint(1, 3))]}
+                if rng.random() < 0.3:
+                    scn["event"]["falsy"] = rng.choice(["", "0", "false", "''", "0.0", "1 - 1", "!true"])
             if self.apply_event(scn)[1]:
                 break
         for k, d in uni.defs.items():
@@ -159,7 +161,13 @@ class C17(Check):
                 items = d["secs"][si]["items"]
                 idx = rr.randint(0, len(items))
                 payload = "PAYLOAD_%d_%d" % (n, seed % 1000)
-                items.insert(idx, ["raw", "@print '%s'" % payload, []])
+                falsy = ev.get("falsy") if n == 0 else None
+                if falsy is not None:
+                    # a directive whose value is "nothing much" (no expression, zero, false, an empty string): still one delivery
+                    payload = None
+                    items.insert(idx, ["raw", ("@print " + falsy).rstrip(), []])
+                else:
+                    items.insert(idx, ["raw", "@print '%s'" % payload, []])
                 # earlier sites of the same section move down
                 sites = [(a, ("%d:%d" % (si, int(b.split(":")[1]) + 1)) if a == k and int(b.split(":")[0]) == si and int(b.split(":")[1]) >= idx else b, c, e) for a, b, c, e in sites]
                 sites.append((k, "%d:%d" % (si, idx), payload, "print"))
@@ -280,7 +288,7 @@ class C17(Check):
                     if k2:
                         ev_count[k2] = ev_count.get(k2, 0) + 1
                 for key, tag, payload, _kl in sites:
-                    got = [(pp, ln, tx) for (pp, ln, tx) in res["prints"] if payload in tx]
+                    got = [(pp, ln, tx) for (pp, ln, tx) in res["prints"] if (payload in tx if payload is not None else "PAYLOAD" not in tx)]
                     want_file = uni.file_of(key)
                     want_line = w.lmaps[key].get(tag)
                     how = "target" if key in targets else "dependency" if key in closure else "outside"
